@@ -86,18 +86,38 @@ async def listening(rng: Rng) -> dict:
     horizon = max([listen_from] + [s.due[i] or t0 for i in near] + [t0 + 2 * S]) + 3 * S
     got: list[dict] = []
     expected = set(near) | ({"late"} if late else set())
+    # a busy queue: a producer keeps ordinary messages waiting all the time and the consumer needs 10 ms per message — a due
+    # message must not wait behind "the queue is never empty"
+    busy = rng.random() < 0.3
 
     async def consumer_loop():
-        while len(got) < len(expected):
+        while len([g for g in got if g["id"] in expected]) < len(expected):
             key, payload, params = await s.consumers[0].consume()
             got.append({"id": key.id_, "at": CLOCK.us})
             await s.broker.ack(key)
+            if busy:
+                await asyncio.sleep(0.01)
+
+    async def producer():
+        from repid.data._key import RoutingKey
+        from repid.data._parameters import Parameters
+        n = 0
+        while True:
+            q = s.broker.queues["q0"]
+            while q.simple.qsize() < 3:
+                n += 1
+                await s.broker.enqueue(RoutingKey(id_=f"busy{n}", topic="ta", queue="q0"), "", Parameters())
+            await asyncio.sleep(0.004)
 
     async def late_enqueuer():
         for delay, (i, pd) in late:
             await asyncio.sleep(delay / 1e6)
             await s.enqueue("q0", i, "ta", "p", pd)
 
+    task3 = asyncio.ensure_future(producer()) if busy else asyncio.ensure_future(asyncio.sleep(0))
+    if busy:
+        await asyncio.sleep(0)
+        await asyncio.sleep(0)
     task = asyncio.ensure_future(consumer_loop())
     task2 = asyncio.ensure_future(late_enqueuer())
     try:
@@ -106,15 +126,19 @@ async def listening(rng: Rng) -> dict:
         pass
     task.cancel()
     task2.cancel()
-    await asyncio.gather(task, task2, return_exceptions=True)
-    return {"session": s, "msgs": msgs, "late": late, "phase": phase, "listen_from": listen_from, "got": got,
+    task3.cancel()
+    await asyncio.gather(task, task2, task3, return_exceptions=True)
+    return {"session": s, "msgs": msgs, "late": late, "phase": phase, "listen_from": listen_from, "got": got, "busy": busy,
             "expected": sorted(expected), "horizon": horizon, "t0": t0, "nmsgs": len(msgs) + len(late)}
 
 
 def check_listening(o: dict, model: Model, res: Result, label: str) -> None:
     s: MemSession = o["session"]
-    case = {"label": label, "enqueued": [(i, pd) for i, pd in o["msgs"]], "late": o["late"], "consumer_phase_us": o["phase"]}
-    bound = 1_000_000 + 5_000 + 1_000 * o["nmsgs"]
+    case = {"label": label, "enqueued": [(i, pd) for i, pd in o["msgs"]], "late": o["late"], "consumer_phase_us": o["phase"],
+            "busy_queue": o.get("busy", False)}
+    res.dist["listen-scenario:" + ("busy-queue" if o.get("busy") else "idle-queue")] += 1
+    # (busy queue: up to 4 ordinary messages of 10 ms each ahead of a message that has just become due)
+    bound = 1_000_000 + 5_000 + 1_000 * o["nmsgs"] + (60_000 if o.get("busy") else 0)
     gotmap = {g["id"]: g["at"] for g in o["got"]}
     reqs, meta = [], []
     for i in o["expected"]:
